@@ -63,7 +63,7 @@ CLAIMED = {
          "Every filter of the stdlib and of the jekyll/shopify/extra sets (names from the parser's reflection) on every value of a 51-value type-confused pool with every argument tuple of arity <=1 and arity 2 over a sub-pool (thorough, and always for the extended-configuration filters: full pool); every filter on 72 strings of special-casing / 4-byte / combining / Unicode-blank characters; every loop/cycle/include/render/case/counter attribute position over 14 extreme values x 8 collection forms; every strftime format of <=3 (4) symbols incl. non-ASCII, every printable ASCII directive x 13 prefixes x 10 field-edge timestamps; random templates using every construct on random nested data. Oracle: never panics, returns Ok or Err, bytes valid UTF-8, render() == render_to().",
          "Ranges/widths above 10^4 excluded as in the statement; hangs and aborts are handled by the supervisor (stalled case re-run alone: reproducible stall = VIOLATION, otherwise inconclusive); explosive random programs are discarded by a cost estimate.", "4.2"),
  "C20": ("exploration", "randomised multi-thread stress (barrier release, start skews, yield injection, repetitions on fresh parsers) with a sequential oracle",
-         "240 enumerated + random scenarios: a shared Parser with an untouched lazy partial store (valid, large, broken, missing partials) and shared parsed templates using cycle/increment/ifchanged/capture/break/include/render; 2..16 threads released by a barrier each perform 3..19 parse/render calls, 20 (thorough 200) repetitions each on a fresh parser. Every concurrent result must equal the same call executed alone on a fresh parser, all threads must finish within 20 s, and the used parser must afterwards answer like a fresh one.",
+         "240 enumerated + random scenarios: a shared Parser with an untouched lazy partial store (valid, large, broken, missing partials) and shared parsed templates using cycle/increment/ifchanged/capture/break/include/render; 2..16 threads released by a barrier each perform 3..19 parse/render calls, 20 (thorough 60) repetitions each on a fresh parser. Every concurrent result must equal the same call executed alone on a fresh parser, all threads must finish within 20 s, and the used parser must afterwards answer like a fresh one.",
          "The harness does not own the scheduler: this is stress, not schedule enumeration; races needing a window of a few instructions can be missed. shuttle/loom are cached but would need the crate's Mutex swapped behind a cfg (not done).", "4.20"),
 }
 
